@@ -251,7 +251,7 @@ func runC07(e *Engine, r *Report, tier string) {
 				}
 				e.Slice(ev, SliceOpts{MaxDepth: 8}, func(v ssa.Value) Verdict {
 					if c, ok := v.(*ssa.Call); ok {
-						if cal := c.Common().StaticCallee(); cal != nil && isFx(cal) && !allowedFx[cal.Name()] && cal.Parent() == nil {
+						if cal := c.Common().StaticCallee(); cal != nil && isFx(cal) && !allowedFx[cal.Name()] && cal.Parent() == nil && !onlySDKErrors(e, cal, 0) {
 							bad = e.FnKey(cal)
 						}
 						return Accept
@@ -530,4 +530,40 @@ func panicContext(p *ssa.Panic) string {
 		return "if " + ci.Op + " " + desc(ci.X)
 	}
 	return "if " + ci.Op
+}
+
+// onlySDKErrors: every error an fx-core helper of the gov end blocker can return comes from a dependency call (SDK
+// collections / keepers) or from a helper with the same property — the reviewed callees are recognised by that shape,
+// so that renaming one does not raise an alarm.
+func onlySDKErrors(e *Engine, f *ssa.Function, depth int) bool {
+	if depth > 2 || f.Blocks == nil {
+		return false
+	}
+	ok := true
+	for _, b := range f.Blocks {
+		ret, isRet := b.Instrs[len(b.Instrs)-1].(*ssa.Return)
+		if !isRet || len(ret.Results) == 0 {
+			continue
+		}
+		ev := ret.Results[len(ret.Results)-1]
+		if !isErrorType(ev.Type()) || isNilConst(ev) {
+			continue
+		}
+		res := e.Slice(ev, SliceOpts{MaxDepth: 8}, func(v ssa.Value) Verdict {
+			if c, isCall := v.(*ssa.Call); isCall {
+				if cal := c.Common().StaticCallee(); cal != nil && isFx(cal) && cal.Parent() == nil {
+					if onlySDKErrors(e, cal, depth+1) {
+						return Accept
+					}
+					return Reject
+				}
+				return Accept
+			}
+			return Continue
+		})
+		if len(res.Rejected) > 0 || len(res.Leaves) > 0 {
+			ok = false
+		}
+	}
+	return ok
 }
